@@ -12,7 +12,7 @@ RULE = (
     "Non-trivial = the handler outcome is not a plain successful return, or neighbours ran concurrently; distinct = distinct cells / distinct mixes of outcome kinds"
 )
 ASSUMPTIONS = ["handlers raising BaseException subclasses (CancelledError, KeyboardInterrupt) are outside 'any other exception'"]
-REQUIRED_MONITORS = {"one_final_response": 500, "code_and_payload": 500, "no_leak": 500, "neighbour_unaffected": 100, "later_request": 16, "no_site": 8}
+REQUIRED_MONITORS = {"one_final_response": 500, "code_and_payload": 500, "no_leak": 500, "neighbour_unaffected": 100, "later_request": 16, "no_site": 8, "neighbour_transport_failure": 30}
 EXHAUSTIVE = {"outcome_table": "every outcome kind x 7 methods (+1 unassigned method code) x CON/NON x {before, after} the empty ACK"}
 
 METHODS = [1, 2, 3, 4, 5, 6, 7]
@@ -167,7 +167,7 @@ def plan(tier, seed):
     return [{"name": "c09-%d" % i, "seed": seed * 1000 + i, "index": i, "of": n, "tier": tier, "mixes": {"quick": 25, "thorough": 3000}[tier]} for i in range(n)]
 
 
-def run_requests(reqs, seed, rep, case, with_site=True):
+def run_requests(reqs, seed, rep, case, with_site=True, fault=None):
     """reqs: list of dict(peer, kind: 'o'|'getonly'|'missing', outcome idx, method, type, delay, t)"""
     from harness import scenario, simnet, refcodec as rc
     import asyncio
@@ -187,6 +187,9 @@ def run_requests(reqs, seed, rep, case, with_site=True):
 
         peers = [simnet.RawPeer(net, ip, port, on_msg) for ip, port in [("10.0.0.2", 40000), ("10.0.0.2", 40001), ("10.0.0.3", 40000)]]
         now = 0.0
+        if fault is not None:
+            # a transport-level failure of ONE peer (ICMP error for its address) while others have requests in flight
+            net.inject_error(S, peers[fault["peer"]].addr, 111, delay=fault["t"])
         for k, q in enumerate(sorted(reqs, key=lambda q: q["t"])):
             if q["t"] > now:
                 await asyncio.sleep(q["t"] - now)
@@ -206,7 +209,7 @@ def run_requests(reqs, seed, rep, case, with_site=True):
     return res, box
 
 
-def judge(reqs, res, box, rep, case, table, with_site=True):
+def judge(reqs, res, box, rep, case, table, with_site=True, fault=None):
     from harness import refcodec as rc
 
     if not res.ok:
@@ -226,6 +229,9 @@ def judge(reqs, res, box, rep, case, table, with_site=True):
             break
     many = len(reqs) > 1
     for q in reqs:
+        if fault is not None and q["peer"] == fault["peer"]:
+            rep.count("requests_of_failed_peer_not_judged")
+            continue
         tok = bytes([0xC0, q["serial"] & 0xFF, q["serial"] >> 8])
         dst = box["peers"][q["peer"]]
         finals = {}
@@ -322,8 +328,13 @@ def run_shard(shard, rep, only=None):
             reqs.append({"peer": r.randrange(3), "kind": kind, "outcome": r.randrange(len(names)), "method": r.choice(METHODS), "type": r.choice([rc.CON, rc.NON]), "delay": r.choice([0.0, 0.0, 0.05, 0.3, 1.0]), "t": r.choice([0.0, 0.0, 0.01, 0.2]), "serial": nxt()})
         if only is not None and only != case:
             continue
-        res, box = run_requests(reqs, shard["seed"] * 104729 + mi, rep, case)
-        judge(reqs, res, box, rep, case, table)
+        fault = None
+        if r.random() < 0.4:
+            fault = {"peer": r.choice([1, 2]), "t": r.choice([0.02, 0.1, 0.25, 0.6])}
+        res, box = run_requests(reqs, shard["seed"] * 104729 + mi, rep, case, fault=fault)
+        judge(reqs, res, box, rep, case, table, fault=fault)
+        if fault is not None:
+            rep.monitor("neighbour_transport_failure")
         rep.case(("mix", tuple(sorted((names[q["outcome"]] if q["kind"] == "o" else q["kind"]) for q in reqs))), nontrivial=True)
     # ---- context without a site ----
     case = ["nosite"]
